@@ -75,7 +75,15 @@ def evaluate(e, env):
                 if isinstance(x, ast.Tuple): return tuple(ty(y) for y in x.elts)
                 raise Unsupported("isinstance against " + ast.unparse(x))
             return isinstance(evaluate(e.args[0], env), ty(e.args[1]))
+        # a call of a sample callable supplied by the analysis (tagged stand-in for a provider / processor object)
+        try: fv = evaluate(e.func, env)
+        except Unsupported: fv = None
+        if isinstance(fv, Callee) and not e.keywords: return fv(*[evaluate(a, env) for a in e.args])
     raise Unsupported("expression outside the supported subset : " + ast.unparse(e)[:80])
+class Callee:
+    """stand-in for a callable object of the analysed program: calling it records its tag and returns ('result', tag)"""
+    def __init__(s, tag, log, ret="result"): s.tag, s.log, s.ret = tag, log, ret
+    def __call__(s, *args): s.log.append(s.tag); return None if s.ret is None else (s.ret, s.tag)
 
 class Raised(Exception):
     """the evaluated code raised (class name, message)"""
@@ -130,6 +138,19 @@ def run_block(stmts, env, max_steps=2000):
                     except _Continue: continue
                 if not broke: block(s.orelse)
                 continue
+            if isinstance(s, ast.Try):
+                try:
+                    try: block(s.body)
+                    except Raised as r:
+                        if not s.handlers: raise
+                        h = s.handlers[0]
+                        if h.name: env[h.name] = {".cls": r.cls}
+                        block(h.body)
+                    else: block(s.orelse)
+                finally: block(s.finalbody)
+                continue
+            if isinstance(s, ast.Expr) and isinstance(s.value, ast.Call):
+                evaluate(s.value, env); continue
             if isinstance(s, ast.Break): raise _Break()
             if isinstance(s, ast.Continue): raise _Continue()
             raise Unsupported("statement " + type(s).__name__)
